@@ -27,7 +27,7 @@ def partial_path(s):
 
 def oracle(p, o):
     cfg = (p.get("config") or {}).get("shell_injection", None) if p.get("config") else None
-    if p.get("config") is not None and "shell_injection" in p["config"]:
+    if p.get("config") is not None and p["config"].get("shell_injection") is not None:     # a null section is an absent one: defaults
         cfg = p["config"]["shell_injection"]
         if not (isinstance(cfg, dict) and all(isinstance(cfg.get(k), list) and all(isinstance(x, str) for x in cfg.get(k))
                                                 for k in ("subprocess", "shell", "no_shell"))):
@@ -35,7 +35,21 @@ def oracle(p, o):
     else:
         cfg = default_cfg()
     if o["errors"]:
-        return []              # crashes are C06's subject
+        # crashes on unusual argument shapes are C06's subject; but under a well-formed configuration a check of this family
+        # that raises on an ordinary call (string or name arguments only) has not followed its decision table at all
+        fam = {"subprocess_popen_with_shell_equals_true", "subprocess_without_shell_equals_true", "any_other_function_with_shell_equals_true",
+               "start_process_with_a_shell", "start_process_with_no_shell", "start_process_with_partial_path", "linux_commands_wildcard_injection"}
+        try:
+            tree0 = ast.parse(p["src"])
+            ordinary = all(isinstance(a, (ast.Constant, ast.Name)) and not isinstance(getattr(a, "value", ""), (bytes, complex))
+                           for c in ast.walk(tree0) if isinstance(c, ast.Call) for a in list(c.args) + [k.value for k in c.keywords if k.arg])
+        except SyntaxError:
+            ordinary = False
+        hit = [e for e in o["errors"] if e[0] in fam]
+        if ordinary and hit and "nosec" not in p["src"]:
+            return [{"what": "check %s raised %s under a well-formed configuration on an ordinary call: no classification at all" % (hit[0][0], hit[0][2][:100]),
+                     "input": p["src"], "config": p.get("config"), "observed": o["errors"][:3], "signature": None}]
+        return []
     inc = set(p.get("include") or [])
     ids = {"B602", "B603", "B604", "B605", "B606", "B607", "B609"}
     if inc and not ids <= inc:
